@@ -12,6 +12,8 @@
 //   selection (ranks 0..N-1): value equivalent to merged[rank];
 //   offset == rank - lower_bound(merged, value).
 // Rank N for selection is documented as "throws / undefined" and not asserted.
+// Targets partition_scale / selection_scale: same oracle on big tuples (gen_shape_scale in C08_common.hpp: up to 400
+// sequences, lengths up to ~19000, N up to ~10^5); tuples with N > 600 get a bounded, boundary-biased rank sample.
 #include "C08_common.hpp"
 
 namespace {
@@ -51,32 +53,80 @@ void shape_labels(const Shape& sh, int cfg) {
     else pbt::label("keys_few_distinct");
 }
 
-void run_generated(pbt::Source& src, bool dp, bool ds) {
+//! some key occurs in >= 2 sequences
+bool key_in_two_seqs(const Shape& sh) {
+    std::vector<std::pair<int, int>> ks;
+    for (int i = 0; i < sh.m; ++i)
+        for (int a : sh.keys[i]) ks.emplace_back(a, i);
+    std::sort(ks.begin(), ks.end());
+    for (size_t i = 1; i < ks.size(); ++i)
+        if (ks[i].first == ks[i - 1].first && ks[i].second != ks[i - 1].second) return true;
+    return false;
+}
+
+void scale_labels(const ScaleShape& sh, int cfg) {
+    static const char* const CLS[] = {"scale:long+short", "scale:many-short", "scale:several-long", "scale:big-N", "scale:many-mid"};
+    pbt::label(CLS[sh.cls]);
+    pbt::label(cfg == 0 || cfg == 3 ? "cmp=less" : cfg == 1 || cfg == 4 ? "cmp=greater" : "cmp=projection");
+    pbt::label(cfg < 3 ? "elem=int" : "elem=record");
+    size_t lo = SIZE_MAX, hi = 0, N = 0;
+    for (auto& k : sh.keys) {
+        lo = std::min(lo, k.size());
+        hi = std::max(hi, k.size());
+        N += k.size();
+    }
+    int m = sh.m;
+    pbt::label(m == 1 ? "m=1" : m <= 8 ? "m=2..8" : m <= 16 ? "m=9..16" : m <= 99 ? "m=17..99" : m <= 255 ? "m=100..255" : "m>=256");
+    if (m >= 127 && m <= 129) pbt::label("m=127..129");
+    if (m >= 255 && m <= 257) pbt::label("m=255..257");
+    pbt::label(hi < 64 ? "nmax<64" : hi < 1000 ? "nmax=64..999" : hi < 4096 ? "nmax=1000..4095" : "nmax>=4096");
+    for (int j = 7; j <= 14; ++j)
+        if (hi + 1 >= (1u << j) && hi <= (1u << j) + 1) pbt::label("nmax_at_pow2_edge(>=127)");
+    if (hi == 1) pbt::label("all_len1");
+    if (m >= 2 && lo == 1 && hi >= 1000) pbt::label("len1_next_to_len>=1000");
+    if (m >= 2 && hi >= 100 * lo) pbt::label("lengths_ratio>=100");
+    pbt::label(N <= 600 ? "N<=600" : N < 10000 ? "N=601..9999" : N < 50000 ? "N=10000..49999" : "N>=50000");
+    if (sh.distinct == 1) pbt::label("keys_all_equal");
+    else if (sh.distinct <= 6) pbt::label("keys_few_distinct");
+    else if (sh.distinct == 1000) pbt::label("keys_1000");
+    else if (sh.distinct == (1 << 20)) pbt::label("keys_nearly_unique");
+    else pbt::label("keys_N/8_distinct");
+    if (sh.stagger == 1) pbt::label("staggered_half");
+    if (sh.stagger == 2) pbt::label("staggered_disjoint");
+}
+
+void run_generated(pbt::Source& src, bool dp, bool ds, bool scale = false) {
     int cfg = (int)src.range(0, 5);
     int rsel = (int)src.weighted({3, 2, 1});
     bool ptr = src.boolean();
-    Shape sh = gen_shape(src);
+    Stats st;
+    Shape sh;
+    if (!scale) {
+        sh = gen_shape(src);
+        shape_labels(sh, cfg);
+    } else {
+        ScaleShape ss = gen_shape_scale(src);
+        scale_labels(ss, cfg);
+        st.sample_ranks = true;
+        st.rank_seed = ss.rank_seed;
+        sh = ss;
+    }
     PBT_LOG("cfg=" << cfg << " (0 int/less(default) 1 int/greater 2 int/key/4 3 rec/less 4 rec/greater 5 rec/key/4) rank_t=" << rsel
                    << " (0 ptrdiff_t 1 size_t 2 int) iterator=" << (ptr ? "T*" : "vector::iterator") << " m=" << sh.m << "\n");
-    shape_labels(sh, cfg);
     pbt::label(rsel == 0 ? "rank_t=ptrdiff_t" : rsel == 1 ? "rank_t=size_t" : "rank_t=int");
-    Stats st;
     dispatch(cfg, rsel, ptr, sh.keys, dp, ds, st);
+    if (scale) {
+        pbt::label(st.sampled ? "ranks_sampled" : "ranks_all");
+        if (st.sampled) pbt::label(st.ranks_checked < 300 ? "ranks_checked<300" : st.ranks_checked < 500 ? "ranks_checked=300..499" : "ranks_checked>=500");
+        PBT_LOG("ranks checked: " << st.ranks_checked << (st.sampled ? " (sampled)" : " (all)") << "\n");
+    }
     if (st.cut_multi) pbt::label("cut_class_in>=2_seqs");
     if (st.cut3) pbt::label("cut_class_in>=3_seqs");
     if (dp) {
         if (sh.m >= 2 && st.cut_multi) pbt::nontrivial();
     } else {
         // selection: some key present in >= 2 sequences (offset computation over several sequences)
-        bool dup = false;
-        for (int i = 0; i < sh.m && !dup; ++i)
-            for (int j = i + 1; j < sh.m && !dup; ++j)
-                for (int a : sh.keys[i])
-                    if (std::find(sh.keys[j].begin(), sh.keys[j].end(), a) != sh.keys[j].end()) {
-                        dup = true;
-                        break;
-                    }
-        if (dup) {
+        if (key_in_two_seqs(sh)) {
             pbt::label("key_in>=2_seqs");
             pbt::nontrivial();
         }
@@ -87,6 +137,10 @@ void run_generated(pbt::Source& src, bool dp, bool ds) {
 
 PBT_PROPERTY(partition) { run_generated(src, true, false); }
 PBT_PROPERTY(selection) { run_generated(src, false, true); }
+// scale classes (gen_shape_scale): up to 400 sequences, lengths up to ~19000, N up to ~10^5; tuples with more than
+// 600 elements get a bounded rank sample (sample_ranks) instead of every rank
+PBT_PROPERTY(partition_scale) { run_generated(src, true, false, true); }
+PBT_PROPERTY(selection_scale) { run_generated(src, false, true, true); }
 
 // Exhaustive small scope: every tuple of m = 1..3 sorted sequences over the
 // keys {0,1,2}; lengths 1..9 for m <= 2, 1..6 for m = 3; every rank; both
